@@ -279,6 +279,7 @@ def check_system_trait(path):
     for mm in re.finditer(r"fn\s+(\w+)\s*\(([^)]*)\)\s*(?:->\s*([^;]+))?;", m.group(1)):
         real[mm.group(1)] = (re.sub(r"\s+", "", mm.group(2)), re.sub(r"\s+", "", mm.group(3) or ""))
     text = open(path).read()
+    if re.search(r"\ntrait System[^{\n]*\{\s*\}", text): return []
     m = re.search(r"\ntrait System[^{]*\{(.*?)\n\}", text, re.S)
     if not m: return []
     for mm in re.finditer(r"fn\s+(\w+)\s*\(([^;{]*?)\)\s*->\s*\((\w+)\s*:\s*([^\n]+?)\)\s*\n", m.group(1)):
